@@ -85,8 +85,13 @@ def cases_gradient(tier):
         add(3, 2, 2, 1, None, False, "mean")
         add(2, 3, 2, 1, None, False, "mean", fp=[[False, True, False], [False, False, False]])
         add(3, 2, 2, 2, [False, True], False, "mean", fr=[False, True, False])
+        # stddev chain rule with two variables: the non-linear obligations stay 'unknown' in z3 and cvc5, so these shapes are
+        # run natively only (bounded stand-in, not counted as proved)
         add(3, 1, 2, 1, None, False, "stddev", cw=[0.2, 0.3, 0.5])
+        out[-1]["__concrete_only__"] = True
         add(2, 2, 2, 1, None, False, "stddev", cw=[0.5, 0.5])
+        out[-1]["__concrete_only__"] = True
+        add(3, 2, 1, 1, None, False, "stddev", cw=[0.2, 0.3, 0.5])
         add(3, 1, 1, 1, None, True, "mean", shared=True)
         add(3, 2, 2, 1, None, True, "mean", cw=[0.0, 1.0, 0.0])
     for c in out:
@@ -205,7 +210,8 @@ def scn_gradient(T, case):
                     alts = [T.all([T.close(got[k], want[k] / float(n_act), 1e-7) for k in range(len(free))]) & (nact == n_act) for n_act in range(1, R + 1)]
                     T.prove("C02.merged.shared.is_exact_or_the_recorded_known_scaling", T.implies(pre, T.any(alts)))
             else:
-                T.prove("C02.%s_gradient_exact_on_affine_ensemble[%s]" % (kind, case["est"]), T.implies(pre, T.all([T.close(got[k], want[k], 1e-7) for k in range(len(free))])))
+                eq = (lambda u, v: T.same(u, v)) if T.symbolic else (lambda u, v: T.close(u, v, 1e-7))
+                T.prove("C02.%s_gradient_exact_on_affine_ensemble[%s]" % (kind, case["est"]), T.implies(pre, T.all([eq(got[k], want[k]) for k in range(len(free))])))
     T.prove("C02.weighted_objective_gradient_is_weighted_sum", T.all([T.close(G.weighted_objective[i], T.total([ow[j] * G.objectives[j, i] for j in range(J)]), 1e-9) for i in range(N)]))
     for i in range(N):
         if not mask[i]:
